@@ -36,6 +36,9 @@ func parseCommon(name string, args []string, extra func(fs *flag.FlagSet)) *comm
 	}
 	_ = fs.Parse(args)
 	_ = os.MkdirAll(cf.out, 0o755)
+	if abs, err := filepath.Abs(cf.out); err == nil {
+		watchInit(abs)
+	}
 	return cf
 }
 
